@@ -634,7 +634,10 @@ def mps_entry(cx):
                             return "the input network was modified by the non-in-place spelling"
                         got = site_dense(after, "mps", sites)
                         e = rel_err(got, ref)
-                        if isinstance(e, str) or e > 1e-7:
+                        # method 'dm' compresses through density matrices with the default cutoff 1e-10 on SQUARED weights: it is
+                        # only promised to ~sqrt(1e-10) = 1e-5 (7.8e-6 observed on a d=3 chain); every other route here is exact
+                        etol = 3e-5 if opts.get("method") == "dm" else 1e-7
+                        if isinstance(e, str) or e > etol:
                             return f"dense(after) != reference: {e if isinstance(e, str) else f'relative error {e:.3e}'}"
                         lazy = opts.get("method") == "lazy" or entry == "gate_with_op_lazy"
                         pr = structure_problems(tn, after, "mps", sites, keep_structure=not lazy)
